@@ -20,6 +20,28 @@ UniverseCore ==
 UniverseE == { <<"launch", "ok">>, <<"setbp", "ok">>, <<"confdone", "ok">>, <<"continue", "ok">>,
                <<"terminate", "ok">> }
 
+\* ---- relaunch histories: terminated -> k >= 1 requests that enqueue while terminated -> launch -> run to exit ----
+KL == <<"launch", "ok">>   KCD == <<"confdone", "ok">>   KC == <<"continue", "ok">>
+KTT == <<"termthreads", "empty">>
+\* every class of handler with an enqueue site reachable while `terminated` is set (read off Plan/ExecRun/ExecRefresh)
+EnqTermKinds == { <<"pause", "ok">>, KTT, <<"restart", "ok">>, <<"threads", "ok">>, <<"setbp", "ok">>,
+                  <<"query", "ok">>, <<"step", "ok">>, <<"goto", "ok">>, KC }
+UniverseRelaunch == {KL, KCD, KC} \cup EnqTermKinds
+KK(i) == <<reqlog[i].cls, reqlog[i].shape>>
+RelaunchShape(kmax) ==
+  LET n == Len(reqlog) IN
+  /\ (n >= 1 => KK(1) = KL)
+  /\ (n >= 2 => KK(2) \in {KCD, KTT})          \* the debuggee runs to its end / is terminated: `terminated` is set
+  /\ \A i \in 3..n :
+        IF \E j \in 3..(i - 1) : KK(j) = KL
+          THEN LET j == CHOOSE j \in 3..(i - 1) : KK(j) = KL IN
+               (i = j + 1 /\ KK(i) = KCD) \/ (i = j + 2 /\ KK(i) = KC)
+          ELSE (KK(i) \in EnqTermKinds /\ i <= 2 + kmax) \/ (KK(i) = KL /\ i >= 4)
+RelaunchShape1 == RelaunchShape(1)
+RelaunchShape2 == RelaunchShape(2)
+RelaunchDone == LET n == Len(reqlog) IN
+                n >= 6 /\ KK(n) = KC /\ KK(n - 1) = KCD /\ KK(n - 2) = KL /\ ppc["sess"] = "reading"
+
 \* G mode (simulation): print requests, writer order and outcome of every finished behaviour
 Beh == [reqs  |-> [i \in 1..Len(reqlog) |-> <<reqlog[i].cls, reqlog[i].shape>>],
         order |-> [i \in 1..Len(wire) |-> wire[i].by],
@@ -29,4 +51,5 @@ Beh == [reqs  |-> [i \in 1..Len(reqlog) |-> <<reqlog[i].cls, reqlog[i].shape>>],
 \* counterexamples are printed through this alias (one JSON string per state)
 BehAlias == [beh |-> ToJson(Beh)]
 EmitBeh == Terminal => PrintT(<<"BEH", ToJson(Beh)>>)
+EmitRelaunch == RelaunchDone => PrintT(<<"BEH", ToJson(Beh)>>)
 =============================================================================
